@@ -160,6 +160,18 @@ def montecarlo_clause(cl, rng, n, replay):
             cl.skipped += 1          # a normal generator produced a non-positive value for a lognormal spatial distribution: outside the domain
             continue
         cl.case((j, M, nreal, dg, ds))
+        if j % 5 == 0:
+            # the numbers, not their container or dtype, decide: integer means / a plain list give what the same values as floats give
+            imeans = np.array(rng.integers(1, 6, M))
+            a = montecarlo_fn(imeans, stds, wts, dg, ds, n_realizations=nreal, rng=np.random.default_rng(seed))
+            b = montecarlo_fn(imeans.astype(float), stds, wts, dg, ds, n_realizations=nreal, rng=np.random.default_rng(seed))
+            c = montecarlo_fn([int(v) for v in imeans], list(stds), list(wts), dg, ds, n_realizations=nreal, rng=np.random.default_rng(seed))
+            if np.all(np.isfinite(b[2])) and np.isfinite(b[0]) and np.isfinite(b[1]) and not (
+                    np.array_equal(a[2], b[2]) and np.array_equal(c[2], b[2]) and close(a[0], b[0], 1e-12) and close(c[0], b[0], 1e-12)
+                    and close(a[1], b[1], 1e-10, 1e-14) and close(c[1], b[1], 1e-10, 1e-14)):
+                cl.fail("hvsrpy.hvsr_spatial.montecarlo_fn", f"integer-valued generator means {imeans.tolist()} give a different result as integers / a list than as floats: "
+                        f"mean {a[0]} / {c[0]} vs {b[0]}, std {a[1]} / {c[1]} vs {b[1]}", signature="mc:dtype", generators=(dg, ds), stds=stds, n=nreal)
+                return
         if not (close(mu, mu2, 1e-9) and close(sd, sd2, 1e-8, 1e-12) and np.array_equal(reals, reals2)):
             cl.fail("hvsrpy.hvsr_spatial.montecarlo_fn", "result changes when all weights are multiplied by a constant / not reproducible for a given generator",
                     signature="mc:scale-or-seed", weights=wts, generators=(dg, ds))
